@@ -96,7 +96,9 @@ class Gen:
         if sort == 'Int':
             return r.choice(['0', '1', '2', '7', '42', '(- 1)', '(- 5)'])
         if sort == 'Real':
-            return r.choice(['0.0', '1.0', '2.5', '(/ 1 3)', '(- 1.5)', '1'])
+            return r.choice(['0.0', '1.0', '2.5', '(/ 1 3)', '(- 1.5)', '1',
+                             '(/ 5 2)', '(/ 7 0)', '(/ 12 4)', '(/ 3 1)',
+                             '(/ 2.5 0.5)', '12.75'])
         if sort.startswith('(_ BitVec'):
             w = int(sort.split()[2].rstrip(')'))
             v = r.randrange(1 << w)
@@ -680,7 +682,9 @@ def gen_risky(rng, base_feats=None):
         elif p == 7:
             extra_decl.append('(declare-const r Real)')
             extra.append(rng.choice(
-                ['(assert (= r 0.0))', '(assert (> (/ r 1.0) (- r)))']))
+                ['(assert (= r 0.0))', '(assert (> (/ r 1.0) (- r)))',
+                 '(assert (> r (/ 5 2)))', '(assert (< (/ 6 0) (+ r (/ 9 3))))',
+                 '(assert (= (* r (/ 4 1)) (/ 1 2)))']))
         elif p == 8:
             extra_decl.append('(declare-const |q s| Bool)')
             extra_decl.append('(declare-const |qs| Bool)')
@@ -847,12 +851,20 @@ TRICKY_LITERALS = [
     '"two  blanks and a tab\tinside of a fairly long string literal token here"',
     '"""quoted"" at the start and at the ""end"""',
     '"x""y"', '""""', '"plain but long enough to push the line beyond the wrap width ok"',
+    # line structure inside a token: line breaks, an empty line, trailing
+    # blanks before a line break, a line that looks like a comment
+    '"first line\nsecond line"',
+    '"a paragraph\n\nand another one after an empty line"',
+    '"trailing blanks   \n  leading blanks"',
+    '"text\n; not a comment\nmore text"',
+    '"\n"', '"\n\n"',
 ]
 TRICKY_SYMBOLS = [
     '|a quoted symbol with several blanks inside of it and some (parens) too|',
     '|semi;colon and "double quotes" inside a quoted symbol that is long|',
     '|q|', '|two words|',
     'a_very_long_simple_symbol_' + 'x' * 70,
+    '|two\nlines|', '|an empty\n\nline inside|', '|ends with a blank \n|',
 ]
 
 
